@@ -16,8 +16,8 @@
    hold".  The per-mode rules with abstract HMAC/AES are the model's; hence [_partial] in the names below. *)
 From Coq Require Import List NArith ZArith Bool Arith.
 From Coq.Strings Require Import Byte.
-From L4.model Require Import GoBase CodecOpenVpn MatchOpenVpn MatchDns.
-From L4.proofs Require Import MatchOpenVpnProofs MatchDnsProofs.
+From L4.model Require Import GoBase CodecOpenVpn MatchOpenVpn MatchDns OpenVpnRef.
+From L4.proofs Require Import MatchOpenVpnProofs MatchDnsProofs OpenVpnRefProofs.
 From L4.props Require Import C04_ovpn_dns.
 Import ListNotations.
 
@@ -70,6 +70,83 @@ Theorem C14_openvpn_v3_mode_iff_partial : forall hmac aes now c ld body h, cfg_w
      exists m, crypt2_from_headless body h = ROk m /\ crypt2_match hmac aes now c m = BTrue).
 Proof. exact try_v3_iff. Qed.
 
+(* ---- OpenVPN against the INDEPENDENT reference model/OpenVpnRef.v ----
+   [encode]: the packet as the OpenVPN wire definition lays it out, per mode; [wire tcp]: with the 16-bit length prefix over
+   TCP, bare as a datagram; [provision rc]: the matcher state the documented options stand for (group_key_direction belongs
+   to the auth-mode key only); [passes]: mode enabled, key id 0, session id non-zero, no acks, packet id 0, replay id 1,
+   timestamp within 15 s (unless ignore_timestamp), tag length a digest size / the configured digest's size, and - with a
+   group key and without ignore_crypto - the tag is the HMAC under the key QUARTER THE DOCUMENTATION PRESCRIBES for the mode
+   and direction (tls-auth: key[192..) for normal, key[64..) for inverse/bidi; tls-crypt: HMAC key[192..224), cipher
+   key[128..160), no direction), over the documented text.  HMAC and AES-CTR are arbitrary functions. *)
+Theorem C14_openvpn_plain_match_iff_ref : forall hmac ctr now rc ld tcp r, rcfg_wf rc -> ld_ok ld -> reset_fits r ->
+  (fst (ovpn_match hmac ctr now (provision rc) ld tcp (wire tcp (encode (Plain r)))) = Yes <-> passes hmac ctr now rc (Plain r)).
+Proof. exact plain_match_iff_ref. Qed.
+(* tls-auth; a 53-byte body (32-byte tag) also reads as a tls-crypt packet, hence the side condition *)
+Theorem C14_openvpn_auth_match_iff_ref : forall hmac ctr now rc ld tcp r rp tag, rcfg_wf rc -> ld_ok ld -> reset_fits r -> replay_fits rp ->
+  (N.of_nat (length tag) < 60000)%N -> (m_crypt rc = false \/ length tag <> 32%nat) ->
+  (fst (ovpn_match hmac ctr now (provision rc) ld tcp (wire tcp (encode (TlsAuth r rp tag)))) = Yes <-> passes hmac ctr now rc (TlsAuth r rp tag)).
+Proof. exact auth_match_iff_ref. Qed.
+Theorem C14_openvpn_auth_complete : forall hmac ctr now rc ld tcp r rp tag, rcfg_wf rc -> ld_ok ld -> reset_fits r -> replay_fits rp ->
+  passes hmac ctr now rc (TlsAuth r rp tag) ->
+  fst (ovpn_match hmac ctr now (provision rc) ld tcp (wire tcp (encode (TlsAuth r rp tag)))) = Yes.
+Proof. exact auth_complete. Qed.
+Theorem C14_openvpn_honest_auth_client_matches : forall hmac ctr now rc ld tcp k cd d r rp,
+  (forall key text, length (hmac d key text) = digest_size d) ->
+  rcfg_wf rc -> ld_ok ld -> group_key rc = Some k -> m_auth rc = true -> (d < length auth_digests)%nat ->
+  match want_digest rc with Some w => w = d | None => True end ->
+  match gk_dir rc, cd with DNormal, DNormal => True | DNormal, _ => False | _, DNormal => False | _, _ => True end ->
+  reset_fits r -> replay_fits rp -> r_keyid r = 0%N -> (0 < r_sid r)%N -> r_ack r = 0%N -> r_pid r = 0%N ->
+  rp_id rp = 1%N -> (no_ts rc = true \/ ts_ok now (rp_ts rp)) ->
+  fst (ovpn_match hmac ctr now (provision rc) ld tcp (wire tcp (encode (honest_auth hmac k cd d r rp)))) = Yes.
+Proof. exact honest_auth_matches. Qed.
+(* tls-crypt: completeness in every configuration; the equivalence when auth mode is off (the same 53 bytes also read as a
+   tls-auth packet) and the tag is not the output of another 32-byte digest of the module's table - the module tries those
+   as well, which tls-crypt does not allow (recorded finding; witness below) - hence _partial *)
+Theorem C14_openvpn_crypt_complete : forall hmac ctr now rc ld tcp kid sid rp tag enc, rcfg_wf rc -> ld_ok ld ->
+  fits (TlsCrypt kid sid rp tag enc) -> passes hmac ctr now rc (TlsCrypt kid sid rp tag enc) ->
+  fst (ovpn_match hmac ctr now (provision rc) ld tcp (wire tcp (encode (TlsCrypt kid sid rp tag enc)))) = Yes.
+Proof. exact crypt_complete. Qed.
+Theorem C14_openvpn_crypt_match_iff_ref_partial : forall hmac ctr now rc ld tcp kid sid rp tag enc, rcfg_wf rc -> ld_ok ld ->
+  fits (TlsCrypt kid sid rp tag enc) -> m_auth rc = false -> sha256_only hmac tag ->
+  (fst (ovpn_match hmac ctr now (provision rc) ld tcp (wire tcp (encode (TlsCrypt kid sid rp tag enc)))) = Yes <->
+   passes hmac ctr now rc (TlsCrypt kid sid rp tag enc)).
+Proof. exact crypt_match_iff_ref_partial. Qed.
+Theorem C14_openvpn_honest_crypt_client_matches : forall hmac ctr now rc ld tcp k sid rp,
+  (forall key iv x, ctr key iv (ctr key iv x) = x) ->
+  (forall key text, length (hmac sha256 key text) = 32%nat) -> (forall key iv x, length (ctr key iv x) = length x) ->
+  rcfg_wf rc -> ld_ok ld -> group_key rc = Some k -> m_crypt rc = true -> (0 < sid < 2 ^ 64)%N -> replay_fits rp ->
+  rp_id rp = 1%N -> (no_ts rc = true \/ ts_ok now (rp_ts rp)) ->
+  fst (ovpn_match hmac ctr now (provision rc) ld tcp (wire tcp (encode (honest_crypt hmac ctr k 0 sid rp 0 0)))) = Yes.
+Proof. exact honest_crypt_matches. Qed.
+(* the module's key selectors against the documented quarters *)
+Theorem C14_openvpn_auth_key_quarters : forall k d size, length k = 256%nat ->
+  client_auth_key (dir_key k d) size = Some (auth_key k d size).
+Proof. exact client_auth_key_doc. Qed.
+Theorem C14_openvpn_crypt_key_quarters : forall k, length k = 256%nat ->
+  server_decrypt_key (plain_key k) cipher_key = Some (sub k 128 32) /\ client_auth_key (plain_key k) 32 = Some (sub k 192 32).
+Proof. exact (fun k H => conj (server_decrypt_key_doc k H) (client_auth_key_plain k 32 H)). Qed.
+
+(* non-vacuity of the reference theorems: functions satisfying the algebraic hypotheses, a configuration with a group key
+   and the rarely used inverse direction, honest clients of both keyed modes matched over both transports, and a reset with
+   session id 0 rejected *)
+Definition ex_hmac : nat -> list byte -> list byte -> list byte := fun d key _ => firstn (digest_size d) (key ++ repeat x5a 64).
+Definition ex_ctr : list byte -> list byte -> list byte -> list byte := fun _ _ x => x.
+Definition ex_rc : rcfg := {| m_plain := true; m_auth := true; m_crypt := true; m_crypt2 := false; no_crypto := false; no_ts := true;
+  group_key := Some (repeat x11 100 ++ repeat x22 100 ++ repeat x33 56); gk_dir := DInverse; want_digest := None; srv_key := None; cl_keys := [] |}.
+Definition ex_rp : replay := {| rp_id := 1; rp_ts := 0 |}.
+Definition ex_reset (sid : N) : reset := {| r_keyid := 0; r_sid := sid; r_ack := 0; r_pid := 0 |}.
+Example C14_openvpn_ref_nonvacuous :
+  let k := repeat x11 100 ++ repeat x22 100 ++ repeat x33 56 in
+  let run := fun tcp m => fst (ovpn_match ex_hmac ex_ctr 0 (provision ex_rc) None tcp (wire tcp (encode m))) in
+  rcfg_wf ex_rc /\
+  run true (honest_crypt ex_hmac ex_ctr k 0 7 ex_rp 0 0) = Yes /\ run false (honest_crypt ex_hmac ex_ctr k 0 7 ex_rp 0 0) = Yes /\
+  run true (honest_crypt ex_hmac ex_ctr k 0 0 ex_rp 0 0) = No /\
+  run true (honest_auth ex_hmac k DBidi 1 (ex_reset 9) ex_rp) = Yes /\ run false (honest_auth ex_hmac k DInverse 6 (ex_reset 9) ex_rp) = Yes /\
+  (* a client using the quarter of the other direction is not matched *)
+  run true (honest_auth ex_hmac k DNormal 1 (ex_reset 9) ex_rp) = No /\
+  run true (Plain (ex_reset 3)) = Yes /\ run false (Plain (ex_reset 0)) = No.
+Proof. cbv zeta. split; [|vm_compute; repeat split]. unfold rcfg_wf, ex_rc. cbn. repeat split; auto. Qed.
+
 (* today's code accepts, in crypt mode, a tag that verifies under another 32-byte digest of its table although
    tls-crypt fixes HMAC-SHA256 (recorded finding C14:openvpn-crypt-foreign-digest:accepts-invalid): a model instance
    where only digest 10 (SHA3-256) produces the tag, SHA-256 (digest 4) does not, and the message matches *)
@@ -108,5 +185,15 @@ Print Assumptions C14_openvpn_tcp_decision_partial.
 Print Assumptions C14_openvpn_udp_decision_partial.
 Print Assumptions C14_openvpn_v2_modes_iff_partial.
 Print Assumptions C14_openvpn_v3_mode_iff_partial.
+Print Assumptions C14_openvpn_plain_match_iff_ref.
+Print Assumptions C14_openvpn_auth_match_iff_ref.
+Print Assumptions C14_openvpn_auth_complete.
+Print Assumptions C14_openvpn_honest_auth_client_matches.
+Print Assumptions C14_openvpn_crypt_complete.
+Print Assumptions C14_openvpn_crypt_match_iff_ref_partial.
+Print Assumptions C14_openvpn_honest_crypt_client_matches.
+Print Assumptions C14_openvpn_auth_key_quarters.
+Print Assumptions C14_openvpn_crypt_key_quarters.
+Print Assumptions C14_openvpn_ref_nonvacuous.
 Print Assumptions C14_openvpn_crypt_sha256_only_refuted.
 Print Assumptions C14_ovpn_dns_nonvacuous.
